@@ -36,6 +36,10 @@ ASSUMPTIONS = [
     "a valid configuration whose constructor raises is counted as unconstructible (C05's rule)",
     "'identical' (triangular, Fbank) is read as |difference| <= 1e-12: Fbank's two code paths differ by "
     "one ulp (scalar vs array square root), which is not counted as a disagreement",
+    "threshold axis: EFFECTIVE_SUPPORT_THRESHOLD in {default, 1e-4, 2e-3} is set before the bank is constructed "
+    "(agree_threshold) or changed between two uses of one object (threshold_history); 'eps' in the rebuilt-vs-full "
+    "bound is always the value in force when the bound is evaluated. Lowering the constant under an existing "
+    "Gabor / gammatone bank (whose truncation was fixed by the value it was built under) is left open",
     "no signal data is involved: pass/fail cannot depend on VERIF_SEED",
 ]
 
@@ -177,6 +181,7 @@ def _case(b, i, w, e, pristine=None):
 
 
 @c05.quiet
+@c05.with_threshold
 def _bank(b, tier, widths_fn=None):
     r = c05.build(b)
     if r[0] != "ok":
@@ -201,6 +206,8 @@ def _bank(b, tier, widths_fn=None):
             periods = 0.0
         if widths_fn is not None:
             widths = widths_fn(b)
+            if periods > 32 and b.get("threshold") is not None:
+                widths = list(FEW_WIDTHS[tier])
         else:
             widths = widths_for_filter(tier, b["name"], periods, extra_bank=extra)
         if widths is None:
@@ -228,12 +235,53 @@ def _bank(b, tier, widths_fn=None):
 
 @c05.quiet
 def _replay(case):
+    if "t0" in case:
+        return c05.threshold_history_point(case, _threshold_judge)
+    with c05.threshold_in_force(case["bank"].get("threshold")):
+        return _replay_case(case)
+
+
+def _replay_case(case):
     b = case["bank"]
     res = _case(b, case["filt"], case["width"], c05.eps())
     if res is None:
         return c05.unconstructible(c05.build(b))
     return core.result([core.violation(dict(c05.bank_tags(b), what=what, **extra), detail, case)
                         for what, extra, detail in res[0]])
+
+
+THR_WIDTHS = (5, 16, 31, 64, 255, 512)
+THR_HISTORY_WIDTHS = (16, 31, 64, 255)
+
+
+def threshold_banks(tier):
+    """banks built with a lowered / raised EFFECTIVE_SUPPORT_THRESHOLD in force.  Narrow filters (many
+    filters, high rates) are the ones whose truncated response is genuinely truncated."""
+    nfs = (3, 11) if tier == "thorough" else (11,)
+    two = lambda kind, rate: [(20.0, None), (0.0, rate / 2.0)]  # noqa: E731
+    out = c05.bank_lattice(("gabor", "gammatone"), (40,), (16000,), orders=(4,), scales=("mel",),
+                           ranges_fn=lambda kind, rate: [(20.0, None)])
+    out += c05.bank_lattice(("gabor", "gammatone"), nfs, (8000, 16000), orders=(2, 4), ranges_fn=two)
+    out += c05.bank_lattice(("tri", "fbank"), nfs, (8000,), scales=("mel",), ranges_fn=two)
+    return c05.thresholded(out)
+
+
+def threshold_history_banks(tier):
+    out = [dict(b) for b in PAIR_BANKS]
+    out += c05.bank_lattice(("gabor", "gammatone"), (24,), (16000,), orders=(2, 4), scales=("mel",),
+                            ranges_fn=lambda kind, rate: [(20.0, None)])
+    return out
+
+
+def _threshold_judge(bank, b, e):
+    found, evals = [], 0
+    tags = c05.bank_tags(b)
+    for i in range(bank.num_filts):
+        for w in THR_HISTORY_WIDTHS:
+            evals += 1
+            got, _ = _eval_fw(bank, b, tags, i, w, e)
+            found += [(what, extra, detail, i, w) for what, extra, detail in got]
+    return found, evals
 
 
 def odd_rate_ranges(kind, rate):
@@ -364,6 +412,32 @@ def subchecks(tier, seed):
                   scale=list(c05.SCALES), low=[0.0, 20.0],
                   high="None, floor(rate/2), rate/2, rate/2 + 0.5, rate/2 + 1", width=bws, flags="analytic"),
         replay=_replay, chunk=4))
+    tpts = threshold_banks(tier)
+    subs.append(core.SubCheck(
+        "agree_threshold", tpts, lambda b: _bank(b, tier, widths_fn=lambda b: list(THR_WIDTHS)),
+        "banks built AFTER pydrobert.speech.config.EFFECTIVE_SUPPORT_THRESHOLD was set to %r (restored afterwards; "
+        "every chunk of points runs in a forked process of its own): Gabor / gammatone (orders 2, 4) x 4 scales x "
+        "num_filts x rates {8000, 16000} x ranges {(20, default), (0, Nyquist)} x every flag combination, 40 "
+        "filters at 16 kHz, triangular / Fbank x every filter x widths %r (filters spanning > 32 periods: %r): the "
+        "oracles of agree_<class> with eps = the threshold IN FORCE (rebuilt vs full <= 2 eps)" % (
+            c05.THRESHOLDS, THR_WIDTHS, FEW_WIDTHS[tier]),
+        axes=dict(threshold=list(c05.THRESHOLDS), num_filts=sorted(set(b["num_filts"] for b in tpts)),
+                  rate=sorted(set(b["sampling_rate"] for b in tpts)), width=list(THR_WIDTHS),
+                  flags="every combination"),
+        replay=_replay, chunk=4))
+    thb = threshold_history_banks(tier)
+    subs.append(core.SubCheck(
+        "threshold_history", c05.threshold_history_points(thb),
+        lambda pt: c05.threshold_history_point(pt, _threshold_judge),
+        "the constant is changed between two uses of ONE bank object: %d banks x transitions %r (None = default): "
+        "the bank is built and all its read-only properties are read with the first value in force, then the "
+        "second value is set and every filter x widths %r is checked against the oracles of agree_<class> with "
+        "eps = the value now in force. Demanded for triangular / Fbank banks in both directions and for Gabor / "
+        "gammatone banks after RAISING the constant (bounds implied by those at construction); lowering it under a "
+        "Gabor / gammatone bank is left open (skipped)" % (len(thb), c05.THRESHOLD_TRANSITIONS, THR_HISTORY_WIDTHS),
+        axes=dict(transitions=[list(t) for t in c05.THRESHOLD_TRANSITIONS], banks=len(thb),
+                  width=list(THR_HISTORY_WIDTHS)),
+        replay=_replay, chunk=2, kind="histories"))
     subs.append(core.SubCheck(
         "bank_pairs", [(a, b) for a in range(len(PAIR_BANKS)) for b in range(len(PAIR_BANKS)) if a != b],
         _pair_point,
